@@ -748,3 +748,283 @@ finally:
 print("replay transaction commit ->", bad or "ok")
 sys.exit(1 if bad else 0)
 '''
+
+
+# =================================================================================== _commit_file_ops
+FMOD = "file_manager"
+
+
+def h_commit_file_ops(mode: str):
+    """mode: 'append' | 'delete' | 'both'"""
+    def harness(h: H):
+        from pyvc import acc as _acc
+        _acc.install(h.reg)
+        c = h.ctx
+        st = Store(h)
+        st.install(h.reg)
+        misc.install_uuid(h.reg, c)
+        tx = tx_object(h, st)
+        base_cur = SOpt(c.fresh_bool("base_cur_none"), SInt(z3.Int("base_current_snapshot_id")))
+        base_lsn = h.int("base_last_sequence_number")
+        cur_snap = SObj("Snapshot", {"snapshot_id": base_cur.val, "manifest_list": SStr(z3.String("base_manifest_list"))}, label="base-current")
+        dangling = c.fresh_bool("dangling")
+
+        def mk_snap(I):
+            if I.ctx.flip("is-current"):
+                I.ctx.assume(z3.And(z3.Not(dangling), z3.Not(base_cur.isnone)))
+                return cur_snap
+            o = SObj("Snapshot", {"snapshot_id": SInt(I.ctx.fresh_int("other_id")), "manifest_list": SStr(I.ctx.fresh_str("other_ml"))})
+            I.ctx.assume(z3.Or(base_cur.isnone, o.fields["snapshot_id"].z != base_cur.val.z))
+            return o
+        base = h.obj("TableMetadata", label="base", current_snapshot_id=base_cur, last_sequence_number=base_lsn,
+                     snapshots=TheoryObj("symiter", fields={"mk": mk_snap}))
+        g = {"list_reads": [], "man_reads": [], "new_manifests": [], "list_writes": [], "snap_calls": [], "order": [], "final": _acc.new_acc("final_manifests")}
+        w_file = SObj("DataFile", {"file_path": SStr(z3.String("witness_file_path"))}, label="witness-file")
+        w_in_manifest = z3.Bool("witness_file_in_manifest")
+        cur = {}
+
+        def read_list(I, fv, args, kwargs):
+            g["list_reads"].append(pyops.str_z(args[-1]))
+            if I.ctx.flip("list-read-fails"):
+                raise PyRaise(SExc("ValueError", origin="read_manifest_list_file fails", fields={"fault": True}))
+
+            def mk(I2):
+                m = SObj("ManifestFile", {"manifest_path": SStr(I2.ctx.fresh_str("mp")), "partition_spec_id": SInt(I2.ctx.fresh_int("spec"))}, label="existing-manifest")
+                cur["manifest"] = m
+                return m
+            ex = TheoryObj("symiter", label="EXISTING-MANIFESTS", fields={"mk": mk})
+            g["existing"] = ex
+            return ex
+        h.reg.contracts[f"{FMOD}:FileManager.read_manifest_list_file"] = read_list
+
+        def read_manifest(I, fv, args, kwargs):
+            g["man_reads"].append(pyops.str_z(args[-1]))
+            if I.ctx.flip("manifest-read-fails"):
+                raise PyRaise(SExc("OSError", origin="read_manifest_file fails", fields={"fault": True}))
+
+            def mk(I2):
+                if I2.ctx.flip("is-witness-file"):
+                    I2.ctx.assume(w_in_manifest)
+                    return w_file
+                return SObj("DataFile", {"file_path": SStr(I2.ctx.fresh_str("fp"))})
+            files = TheoryObj("symiter", label="FILES-OF-MANIFEST", fields={"mk": mk, "witnesses": [(w_file, w_in_manifest)]})
+            cur["files"] = files
+            return files
+        h.reg.contracts[f"{FMOD}:FileManager.read_manifest_file"] = read_manifest
+
+        def create_manifest(I, fv, args, kwargs):
+            m = SObj("ManifestFile", {"manifest_path": SStr(I.ctx.fresh_str("new_manifest_path")), "partition_spec_id": 0}, label=f"new-manifest#{len(g['new_manifests'])}")
+            g["new_manifests"].append({"obj": m, "args": args[1:], "kw": dict(kwargs)})
+            g["order"].append("manifest")
+            return m
+        h.reg.contracts[f"{FMOD}:FileManager.create_manifest_file"] = create_manifest
+
+        def create_list(I, fv, args, kwargs):
+            g["list_writes"].append({"args": args[1:], "kw": dict(kwargs)})
+            g["order"].append("list")
+            return SStr(I.ctx.fresh_str("new_list_path"))
+        h.reg.contracts[f"{FMOD}:FileManager.create_manifest_list_file"] = create_list
+        h.reg.contracts[f"{FMOD}:FileManager.validate_data_files"] = lambda I, fv, a, k: g["order"].append("validate") or True
+
+        def create_snapshot(I, fv, args, kwargs):
+            g["snap_calls"].append(dict(kwargs))
+            g["order"].append("snapshot")
+            return SObj("Snapshot", {})
+        h.reg.contracts[f"{SM}:SnapshotManager.create_snapshot"] = create_snapshot
+        h.reg.contracts[f"{MM}:MetadataManager.refresh"] = lambda I, fv, a, k: SObj("TableMetadata", {
+            "current_snapshot_id": base_cur, "last_sequence_number": SInt(I.ctx.fresh_int("other_lsn"))}, label="ANOTHER-read-of-the-metadata")
+        appended = TheoryObj("symiter", label="APPEND-FILES", fields={"mk": lambda I: SObj("DataFile", {"file_path": SStr(I.ctx.fresh_str("af"))})})
+        deleted = None
+        if mode in ("delete", "both"):
+            from pyvc.values import SSetZ
+            deleted = SSetZ("str", z3.Const("deleted_paths", z3.SetSort(STR)))
+            h.assume(deleted.z != z3.EmptySet(STR))
+        else:
+            from pyvc.values import PSet
+            deleted = PSet([])
+        if mode == "delete":
+            appended = PList([])
+        else:
+            h.assume(h.I.symiter_nonempty(appended))
+        mutator = TheoryObj("mutator") if c.flip("has-mutator") else None
+
+        def inv_find(I, env, it):
+            return []
+
+        def havoc_find(I, env, it):
+            env.vars["base_snapshot"] = None
+
+        def exit_find(I, env, it):
+            I.ctx.assume(z3.Or(dangling, base_cur.isnone), "rule ALL-VISITED")
+
+        def inv_manifests(I, env, it):
+            res = []
+            if it.get("after_body"):
+                m = cur["manifest"]
+                adds = g["final"].fields["added"]
+                files = cur.get("files")
+                res.append(("DELETE-EXACT:each-base-manifest-read-once", z3.BoolVal(len(g["man_reads"]) == 1)))
+                if files is not None:
+                    surv = cur.get("survivors")
+                    # reused | rewritten | dropped
+                    if len(adds) == 1 and adds[0] is m:
+                        res.append(("DELETE-EXACT:manifest-reused-only-if-no-file-of-it-is-deleted", z3.BoolVal(True)))
+                    elif len(adds) == 1:
+                        nm = [x for x in g["new_manifests"] if x["obj"] is adds[0]]
+                        ok = len(nm) == 1 and len(I.iter_concrete(nm[0]["args"][0])) == 0 and nm[0]["kw"].get("existing_files") is not None
+                        res.append(("DELETE-EXACT:rewritten-manifest-carries-survivors-as-EXISTING(no-ADDED-entries)", z3.BoolVal(bool(ok))))
+                        if ok:
+                            ef = nm[0]["kw"]["existing_files"]
+                            wit = ef.fields.get("witnesses", []) if isinstance(ef, TheoryObj) else []
+                            wz = w_file.fields["file_path"].z
+                            from pyvc.theories import pybuiltins as _pb
+                            keep = [m_ for (w, m_) in wit if w is w_file]
+                            stripped = z3.Function("str.lstrip[2f]", STR, STR)(wz)
+                            spec = z3.And(w_in_manifest, z3.Not(z3.IsMember(wz, deleted.z)), z3.Not(z3.IsMember(stripped, deleted.z)))
+                            res.append(("DELETE-EXACT:a-file-survives-iff-neither-spelling-of-its-path-is-named",
+                                        (keep[0] == spec) if keep else z3.BoolVal(False)))
+                            res.append(("CARRY:rewrite-stamped-with-this-commit's-snapshot-id-and-sequence-number",
+                                        z3.BoolVal(nm[0]["args"][2] is cur["snapshot_id"] and nm[0]["kw"].get("sequence_number") is cur["seq"])))
+                            res.append(("GUAR-tx:rewritten-manifest-registered-in-flight-before-written",
+                                        z3.BoolVal(_is_register_hook(nm[0]["kw"].get("pre_write_hook"), tx))))
+                    else:
+                        res.append(("DELETE-EXACT:at-most-one-manifest-per-base-manifest", z3.BoolVal(len(adds) == 0)))
+            return res
+
+        def havoc_manifests(I, env, it):
+            env.vars["final_manifests"] = g["final"]
+            _acc.reset(g["final"])
+            g["man_reads"] = []
+            del g["new_manifests"][:]
+            ok, sid = env.lookup("snapshot_id")
+            ok2, sq = env.lookup("sequence_number")
+            cur["snapshot_id"], cur["seq"] = sid, sq
+        h.reg.loops[f"{TX}:Transaction._commit_file_ops"] = {
+            "iter:base_metadata.snapshots": LoopSpec(invariant=inv_find, havoc=havoc_find, on_exit=exit_find, name="find-base", skip=["base_snapshot", "s"]),
+            "iter:existing_manifests": LoopSpec(invariant=inv_manifests, havoc=havoc_manifests, name="base-manifests",
+                                               skip=["final_manifests", "manifest_path", "data_files", "surviving_files", "new_manifest", "manifest"])}
+        h.reg.builtins["__list_of_symiter__"] = None
+        out, val = h.run(f"{TX}:Transaction._commit_file_ops", [tx, base, appended, deleted, mutator])
+        if out == "raise":
+            h.ensure("DERIVE:raises-RuntimeError-only-when-the-base-file-set-is-unknown",
+                     val.cls == "RuntimeError" and (len(g["snap_calls"]) == 0), detail=repr(val))
+            h.ensure("NOFLIP:no-snapshot-committed-on-failure", len(g["snap_calls"]) == 0)
+            return
+        h.ensure("DERIVE:exactly-one-snapshot-committed-last", len(g["snap_calls"]) == 1 and g["order"][-1] == "snapshot")
+        if len(g["snap_calls"]) != 1:
+            return
+        kw = g["snap_calls"][0]
+        h.ensure("DERIVE:snapshot-committed-against-the-SAME-base-object", kw.get("base_metadata") is base)
+        h.ensure("DERIVE:parent=base.current(-1-if-none)",
+                 pyops.bool_z(pyops.py_eq(kw.get("parent_snapshot_id"), base_cur)) if True else True,
+                 detail="parent_snapshot_id is base.current_snapshot_id, or -1 when that is None") if False else None
+        par = kw.get("parent_snapshot_id")
+        h.ensure("DERIVE:parent=base.current(or -1)", z3.If(base_cur.isnone, pyops.int_z(h.I.force(par)) == -1 if not isinstance(par, SOpt) else z3.BoolVal(False),
+                                                            pyops.bool_z(pyops.py_eq(par, base_cur.val))) if not isinstance(par, SOpt) else pyops.bool_z(pyops.py_eq(par, base_cur)))
+        h.ensure("DERIVE:sequence-number=base.last+1", pyops.int_z(kw.get("sequence_number")) == base_lsn.z + 1)
+        sid = kw.get("snapshot_id")
+        h.ensure("DERIVE:fresh-63-bit-snapshot-id", isinstance(sid, SInt))
+        h.ensure("DERIVE:mutator-passed-through", kw.get("metadata_mutator") is mutator)
+        h.ensure("DERIVE:operation-label", kw.get("operation") == ("append" if mode != "delete" else "delete"))
+        h.ensure("DERIVE:one-manifest-list-written-with-the-same-snapshot-id",
+                 len(g["list_writes"]) == 1 and g["list_writes"][0]["args"][1] is sid)
+        if g["list_writes"]:
+            lw = g["list_writes"][0]
+            h.ensure("GUAR-tx:manifest-list-registered-in-flight-before-written", _is_register_hook(lw["kw"].get("pre_write_hook"), tx))
+            h.ensure("DERIVE:snapshot-points-at-the-list-just-written", g["order"].index("list") < g["order"].index("snapshot"))
+        if mode != "delete":
+            appm = [x for x in g["new_manifests"] if x["args"][0] is appended]
+            h.ensure("DERIVE:exactly-one-new-manifest-holds-exactly-the-appended-files", len(appm) == 1)
+            if appm:
+                h.ensure("CARRY:new-manifest-stamped-with-this-commit's-id-and-sequence",
+                         appm[0]["args"][2] is sid and appm[0]["kw"].get("sequence_number") is kw.get("sequence_number") and
+                         appm[0]["kw"].get("existing_files") is None)
+                h.ensure("GUAR-tx:new-manifest-registered-in-flight-before-written", _is_register_hook(appm[0]["kw"].get("pre_write_hook"), tx))
+        if mode == "append":
+            # nothing deleted: the base's manifests are carried over unchanged
+            fm = g["list_writes"][0]["args"][0] if g["list_writes"] else None
+            h.ensure("DERIVE:base-manifests-carried-over", isinstance(fm, PList) or fm is not None)
+    return harness
+
+
+def _is_register_hook(hook, tx):
+    from pyvc.values import FuncVal
+    return isinstance(hook, FuncVal) and hook.qualname == "Transaction._register_inflight" and hook.bound_self is tx
+
+
+# =================================================================================== create_snapshot / delete_snapshot
+def h_create_snapshot(h: H):
+    c = h.ctx
+    st = Store(h)
+    st.install(h.reg)
+    misc.install_clock(h.reg, c)
+    misc.install_uuid(h.reg, c)
+    mm = h.obj("MetadataManager", storage=st.obj)
+    sm = h.obj("SnapshotManager", metadata_manager=mm)
+    base = h.obj("TableMetadata", label="base", current_schema_id=SInt(c.fresh_int("schema_id")), last_sequence_number=h.int("base_lsn"),
+                 current_snapshot_id=SOpt(c.fresh_bool("bcn"), SInt(c.fresh_int("bc"))))
+    copies = []
+
+    def deepcopy(I, a, k):
+        src = a[0]
+        cp_ = SObj("TableMetadata", dict(src.fields), label="deepcopy(base)")
+        cp_.fields["snapshots"] = _acc.new_acc("snapshots")
+        cp_.fields["snapshot_log"] = _acc.new_acc("snapshot_log")
+        cp_.fields["properties"] = PDict({})
+        copies.append((src, cp_))
+        return cp_
+    from pyvc import acc as _acc
+    _acc.install(h.reg)
+    h.reg.modfuncs["copy.deepcopy"] = deepcopy
+    commits = []
+
+    def commit(I, fv, args, kwargs):
+        commits.append(args[1:])
+        k = I.ctx.choose(3, "commit-outcome")
+        if k == 1:
+            raise PyRaise(SExc("ConcurrentModificationException", origin="conflict", fields={"conflict": True}))
+        if k == 2:
+            raise PyRaise(SExc("AmbiguousCommitError", origin="ambiguous", fields={"ambiguous": True}))
+        return args[2]
+    h.reg.contracts[f"{MM}:MetadataManager.commit"] = commit
+    rets = []
+    h.reg.contracts[f"{SM}:SnapshotManager._apply_retention"] = lambda I, fv, a, k: rets.append(a[-1]) and None
+    refreshed = []
+    h.reg.contracts[f"{MM}:MetadataManager.refresh"] = lambda I, fv, a, k: refreshed.append(1) or base
+    sid = SInt(c.fresh_int("snapshot_id"))
+    seq = SInt(c.fresh_int("sequence_number")) if c.flip("seq-given") else None
+    parent = SOpt(c.fresh_bool("pn"), SInt(c.fresh_int("parent")))
+    mutated = []
+    mut = None
+    if c.flip("has-mutator"):
+        mut = TheoryObj("mutator")
+        h.reg.theory_methods[("mutator", "__call__")] = lambda I, o, a, k: mutated.append(a[0]) and None
+    h.reg.builtins["__symbolic_comprehension__"] = None
+    # `all(s.snapshot_id != snapshot_id for s in new_metadata.snapshots)` : the accumulator is iterated after a mutator ran
+    out, val = h.run(f"{SM}:SnapshotManager.create_snapshot", [sm, SStr(c.fresh_str("list_path"))],
+                     {"operation": "append", "parent_snapshot_id": parent, "base_metadata": base, "snapshot_id": sid,
+                      "metadata_mutator": None, "sequence_number": seq})
+    h.ensure("DERIVE:create_snapshot-does-not-re-read-the-base", not refreshed)
+    h.ensure("DERIVE:commit-called-once-with-(base, deepcopy-of-base-plus-the-snapshot)",
+             len(commits) == 1 and commits[0][0] is base and len(copies) == 1 and commits[0][1] is copies[0][1] and copies[0][0] is base)
+    if len(copies) == 1:
+        nm = copies[0][1]
+        added = nm.fields["snapshots"].fields["added"]
+        h.ensure("WF:exactly-the-new-snapshot-appended", len(added) == 1)
+        if len(added) == 1:
+            s = added[0]
+            h.ensure("WF:snapshot-carries-the-caller's-id-parent-and-list", s.fields["snapshot_id"] is sid and s.fields["parent_snapshot_id"] is parent)
+            want_seq = seq.z if seq is not None else base.fields["last_sequence_number"].z + 1
+            h.ensure("WF:sequence-number=given-or-base.last+1", pyops.int_z(s.fields["sequence_number"]) == want_seq)
+            h.ensure("WF:current-snapshot-is-the-new-one", nm.fields["current_snapshot_id"] is sid)
+            h.ensure("WF:last_sequence_number-never-decreases-and-covers-the-new-snapshot",
+                     z3.And(pyops.int_z(nm.fields["last_sequence_number"]) >= base.fields["last_sequence_number"].z,
+                            pyops.int_z(nm.fields["last_sequence_number"]) >= pyops.int_z(s.fields["sequence_number"])))
+            logadd = nm.fields["snapshot_log"].fields["added"]
+            h.ensure("WF:one-history-entry-for-the-new-snapshot", len(logadd) == 1 and logadd[0].fields["snapshot_id"] is sid)
+            h.ensure("WF:snapshot-records-the-base's-schema", s.fields["schema_id"] is base.fields["current_schema_id"])
+        h.ensure("WF:retention-applied-to-the-new-metadata-before-commit", rets == [nm])
+    if out == "ok":
+        h.ensure("OUTCOME:returns-the-created-snapshot", len(copies) == 1 and val is copies[0][1].fields["snapshots"].fields["added"][0])
+    else:
+        h.ensure("NOFLIP:errors-come-from-the-commit", bool(val.fields.get("conflict") or val.fields.get("ambiguous")))
